@@ -88,14 +88,21 @@ def tv_defect_candidates(prop, spec, vectorized):
                 yield ids, dict(edge_mask=m, zero_default=zd)
 
 
-GENERATED_NAME = re.compile(r'(.*_v\d+$)|(.*_in\d+$)|(^weight($|_))|(.*_d\d+(_\d+)?$)|(.*_buffered.*)|(.*_timed_input$)')
+_GEN_SUFFIX = re.compile(r'^(.+?)(_v\d+|_in\d+)$')
 
 
 def generated_like_names(spec):
+    """declared identifiers that coincide with a name the compiler would generate for ANOTHER declared identifier
+    (<id>_v<k>, <id>_in<k>), or with the generated edge variable `weight` / `weight_*`"""
     names = set()
     for o in spec.ops.values():
         names |= set(o.vars)
-    return sorted(n for n in names if GENERATED_NAME.match(n))
+    out = []
+    for n in sorted(names):
+        m = _GEN_SUFFIX.match(n)
+        if (m and m.group(1) in names) or n == 'weight' or n.startswith('weight_'):
+            out.append(n)
+    return out
 
 
 @matcher('generated-name-collision')
